@@ -384,7 +384,7 @@ func main() {
 	add(ptr(given("fp.Unit")))
 	add(gomap(tuple(given("int"), given("string")), ptr(given("int"))))
 	// 7. random expressions, depth budget 2..5
-	target := 900
+	target := 620
 	for tries := 0; len(all) < target && tries < 100000; tries++ {
 		d := 3 + r.IntN(3)
 		n := random(r, d)
